@@ -864,6 +864,18 @@ def m_sorted(eng, args, kwargs, anysym):
     key = kwargs.get("key")
     if isinstance(xs, Sym):
         raise Unsupported("sorted() of symbolic list (needs a contract)")
+    if isinstance(xs, (set, frozenset, SymSet)):
+        # sorting a set: if the keys are concrete and pairwise distinct the result does not depend on
+        # the iteration order, so no order needs to be explored
+        raw = list(xs.items) if isinstance(xs, SymSet) else list(xs)
+        ks = raw if key is None else [eng.call(key, [x], {}) for x in raw]
+        if not S.deep_has_sym(ks):
+            try:
+                if len({repr(k_) for k_ in ks}) == len(ks) and len(set(map(type, ks))) <= 1:
+                    order = sorted(range(len(raw)), key=lambda q: ks[q], reverse=kwargs.get("reverse", False))
+                    return [raw[q] for q in order]
+            except TypeError as e:
+                raise _E().Raised(TypeError, e.args)
     items = eng.iterate(xs)
     if key is None:
         keys = items
